@@ -235,6 +235,9 @@ func init() {
 			c.guard("RW.TMPL.IF", r.ruleTmplStmts)
 			// a delegation in for-post position runs after every iteration, also one whose body ended in a yielding switch
 			c.guard("RW.TMPL.FORPOST", func() { r.ruleScopeAgree(true, "forpost") })
+			// a delegation in a switch initialiser: the switch itself stays a native statement in the thunk of the
+			// delegation's last Bind, and what follows it runs after it — its breaks must still be breaks
+			c.guard("RW.SCOPEAGREE", func() { r.ruleScopeAgree(true, "agree") })
 			s := newSeqRT(c)
 			// delegation lowers to a post-less loop: only those runtime shapes matter here
 			c.guard("SEQ.FOR", func() { s.ruleForOnly(func(fc forCase) bool { return fc.postNil }) })
@@ -262,8 +265,8 @@ func init() {
 					return strings.HasPrefix(o.Construct, "MoveNext") || o.Construct == "coverage"
 				case "RW.TMPL.FORPOST":
 					return strings.HasPrefix(o.Construct, "yielding for-post is appended to the body only after")
-				case "RW.SCOPEAGREE":
-					return false
+				case "RW.SCOPEAGREE": // which signal a break becomes inside a yielding clause is C01's
+					return strings.HasPrefix(o.Construct, "breaks of a ")
 				case "RW.DISPATCH", "RW.DEEPVISIT", "SEQ.LAZY":
 					return false
 				case "RW.FIELDCOV":
